@@ -320,7 +320,10 @@ def spec_check(case, impl):
         return "buffer: holds %r afterwards, started with %r" % (unhx(m["buf"]), buf)
     f = case.split(" ")
     nok = len(f) > 9 and f[9] == "nok=1"
-    if tree_ok(t) or nok:
+    # kind X = the macro callback rRecurCb under a multi-component name: its SNIP strips one
+    # component only, so nothing below such a port is dispatchable (recorded observation;
+    # the shape C09_dispatchable excludes: sub-tree ports of more than one component)
+    if (tree_ok(t) or nok) and 'X' not in f[2]:
         d = m["d"].split(";") if m["d"] != "-" else []
         for (i, a), r in zip(got, d):
             if canon_ids(t, r) != i:
